@@ -127,3 +127,48 @@ func firstField(d string) string {
 	}
 	return d
 }
+
+// diffFields returns one entry per differing observable.  A differing Evaluate
+// is not reported separately when GamePhase differs too (the evaluation
+// interpolates by game phase, so it is the same finding).
+func diffFields(d []string) []string {
+	gp := false
+	for _, f := range d {
+		if firstField(f) == "GamePhase" {
+			gp = true
+		}
+	}
+	var r []string
+	for _, f := range d {
+		if gp && firstField(f) == "Evaluate" {
+			continue
+		}
+		r = append(r, f)
+	}
+	return r
+}
+
+// phaseSum is the unclamped sum of the published game-phase values over the
+// pieces on the board (N,B=1, R=2, Q=4).
+func phaseSum(p *position.Position) int {
+	n := 0
+	for c := types.White; c <= types.Black; c++ {
+		for pt := types.Knight; pt <= types.Queen; pt++ {
+			n += p.PiecesBb(c, pt).PopCount() * pt.GamePhaseValue()
+		}
+	}
+	return n
+}
+
+// over24Tag qualifies a GamePhase-related finding: the known clamp defect (D1)
+// can only show once the unclamped phase sum exceeded 24 somewhere in the
+// history of the position object.
+func over24Tag(field string, over24 bool) string {
+	if field != "GamePhase" && field != "Evaluate" {
+		return ""
+	}
+	if over24 {
+		return ":phase-sum-exceeded-24"
+	}
+	return ":phase-sum-within-24"
+}
